@@ -9,6 +9,8 @@ Encodings (all inside one line, words separated by single blanks)
 Operations
 * `rt x<src>`      lex+parse the source with the model, print the tree, regenerate, re-lex, re-parse
 * `txt x<src>`     the regenerated text itself
+* `hist s1 s2 …`   a history of steps `p:x<src>` (from_text), `a` (as_text again), `d:<k>` (delete a child of the
+                   tree), `t:x<src>` (replace the tree of the same object); one answer per step, joined by ` | `
 * `tree <tree>`    `printTree` / `asText` on an arbitrary tree (hand-made trees included)
 * `lex x<text>`    `lexProfile` on arbitrary text
 * `pp <n> x.. x..` `postproc` + join on an arbitrary item list
@@ -120,11 +122,41 @@ def txt (src : Text) : String :=
     | none => "none"
     | some text => s!"text {showText text}"
 
+/-- `p:x<src>` | `a` | `d:<k>` | `t:x<src>` -/
+def readHStep (w : String) : Option HStep :=
+  if w == "a" then some .again
+  else match w.splitOn ":" with
+    | ["p", x] => (textTok x).map HStep.parse
+    | ["t", x] => (textTok x).map HStep.setTree
+    | ["d", k] => k.toNat?.map HStep.delete
+    | _ => none
+
+def showHAnswer : HAnswer → String
+  | .err => "exc LarkError"
+  | .noProfile => "nop"
+  | .ans srcToks t printed =>
+    match printed with
+    | none => s!"ok tree {showTree t} print none"
+    | some out =>
+      let text := asTextOf G idc out
+      let yieldFlag := match srcToks with
+        | none => "-"
+        | some ts => showBool (out.map G.tokText == ts)
+      let relex := lexProfile G.words text == some (out.map G.tokText)
+      let reparse := match parseText G text with
+        | .ok d' => toTree d' == t
+        | _ => false
+      s!"ok yield={yieldFlag} tree {showTree t} print {showToks out} relex={showBool relex} reparse={showBool reparse}"
+
 def step : List String → String
   | ["rt", s] =>
     match textTok s with
     | some src => rt src
     | none => "bad-op"
+  | "hist" :: ws =>
+    match ws.mapM readHStep with
+    | none => "bad-op"
+    | some hs => " | ".intercalate ((runHistory G none hs).map showHAnswer)
   | ["txt", s] =>
     match textTok s with
     | some src => txt src
